@@ -13,8 +13,8 @@ import (
 	"pgregory.net/rapid"
 
 	"verifharness/h"
-	ref "verifharness/ref/slip10"
 	"verifharness/ref/secp"
+	ref "verifharness/ref/slip10"
 )
 
 func TestMain(m *testing.M) {
